@@ -188,8 +188,11 @@ def finish(prop_id, level, results, ctx, t0, technique, trusted_base,
             rp = os.path.join(rpdir, "%s-%d.json" % (prop_id, i))
             with open(rp, "w") as fh:
                 json.dump({"property": prop_id, **v.to_json()}, fh, indent=1)
-            if i < 25:
+            if i < 12:
                 print("  %s\n    at %s\n    %s" % (v.key, v.where, v.message))
-            print("VIOLATION property=%s replay=%s" % (prop_id, rp))
+                print("VIOLATION property=%s replay=%s" % (prop_id, rp))
+        if len(unlisted) > 12:
+            print("  ... and %d more violations (all recorded in %s and in the "
+                  "evidence file)" % (len(unlisted) - 12, rpdir))
         code = 1
     return code
